@@ -397,6 +397,21 @@ def f(a, b, x, s, flag, xs, tp, n):
 ]
 
 OPEN = [
+ {'property': 'C01', 'key': 'lambda-called-later-closure-not-live', 'status': 'open',
+  'what': "a lambda that reads a variable of the enclosing function and is called after the statement that defines it: liveness "
+          "deliberately ignores lambdas as closures (liveness.py lamba_check: 'assumed to be used only in the place where they are "
+          "defined'), so a variable that is assigned inside a later loop or conditional and read only through the lambda is not carried "
+          "out of that statement; the call then raises NameError (or sees a stale value) where the original succeeds. Not repaired: "
+          "counting lambdas like nested defs fails the pinned test liveness_test.test_live_out_lambda, which asserts the exception "
+          "(with a TODO to lift it). The check attributes a divergence to this finding only if it disappears when the differential "
+          "run is repeated with the exception switched off in the running interpreter.",
+  'witness': c01('''def f(a, b, c, xs, o, d):
+    lam1 = lambda q1: q1 + v5
+    for i2 in range(2):
+        if i2 >= 0:
+            v5 = i2
+    return (lam1(a),)
+''', [A, B])},
  {'property': 'C06', 'key': 'definitions-do-not-cross-function-boundaries', 'status': 'open',
   'what': "definitions do not flow between a function and the functions nested in it: a read of an enclosing variable inside a nested "
           "function has an empty DEFINITIONS annotation, and a rebinding made by a nested function through nonlocal is not among the "
